@@ -68,7 +68,9 @@ def serve (s : State) (r : Req) : State × Outcome :=
           let ts := match slot with
             | .active => v.active
             | .rollout => v.rollout.getD v.active
-          match claim s v.name slot ts with
+          -- the rotation holds the targets whose latest probe succeeded (restored targets are presumed
+          -- healthy only until their first probe, which is immediate)
+          match claim s v.name slot (ts.filter fun t => !s.sick.contains t) with
           | (s', some t) =>
             (s', .forwarded v.name t slot
               (if v.opts.stripPrefix && b.pfx ≠ [cSlash] then some b.pfx else none))
